@@ -39,6 +39,7 @@ def run(repo: Repo, L: Ledger, tier: str):
     L.rule("R4", "empty / unindexed scaffold raises ValueError")
     L.rule("R5", "search tests are exact one-sided disjointness and drive the matching update")
     L.rule("R6", "result only when first <= last")
+    L.rule("R7", "the lookup consults rows only for their kind and length: bait and rows live in different coordinate systems")
 
     ia = repo.cls("IndexedAssembly")
     add = ia.methods.get("add_scaffold")
@@ -54,6 +55,7 @@ def run(repo: Repo, L: Ledger, tier: str):
         scope = list(repo.functions.values())
     _r2(repo, L, scope)
     _r345(repo, L, ia, find)
+    _r7(repo, L, find)
 
 
 # ------------------------------------------------------------------------------ result sites / bisect
@@ -112,6 +114,58 @@ def _ends_known_not_gap(find: Func, p, ctor: ast.Call) -> bool:
                     elif li is not None and li == want_last:
                         got_last = True
     return got_first and got_last
+
+
+def _r7(repo, L, find: Func):
+    """The bait carries the *scaffold's* name and scaffold coordinates; a row carries its *contig's* name and the contig's own
+    coordinates.  Whether a row overlaps the bait is a question about the row's position in the scaffold (the cumulative index),
+    never about the row's own name/start/end: any comparison of the bait with those is a category error that happens to work
+    only when a scaffold is one whole contig named after it."""
+    rowish = set()
+
+    def is_row_expr(e):
+        if isinstance(e, ast.Subscript) and not isinstance(e.slice, ast.Slice) and isinstance(e.value, ast.Attribute) and e.value.attr == "rows":
+            return True
+        return isinstance(e, ast.Name) and e.id in rowish
+
+    grew = True
+    while grew:
+        grew = False
+        for n in walk_shallow(find.node):
+            if isinstance(n, ast.Assign) and len(n.targets) == 1 and isinstance(n.targets[0], ast.Name) and is_row_expr(n.value) and n.targets[0].id not in rowish:
+                rowish.add(n.targets[0].id)
+                grew = True
+            if isinstance(n, ast.For | ast.comprehension) and isinstance(n.target, ast.Name) and n.target.id not in rowish:
+                it = n.iter
+                if isinstance(it, ast.Subscript) and isinstance(it.slice, ast.Slice):
+                    it = it.value
+                if isinstance(it, ast.Attribute) and it.attr == "rows":
+                    rowish.add(n.target.id)
+                    grew = True
+    bait = find.params()[1]
+    bad = None
+    n_uses = 0
+    for n in walk_shallow(find.node):
+        if isinstance(n, ast.Attribute) and is_row_expr(n.value):
+            n_uses += 1
+            if n.attr in ("name", "start", "end", "strand", "tags") and isinstance(n.ctx, ast.Load):
+                par = getattr(n, "_parent", None)
+                if not (isinstance(par, ast.Call) and par.func is n):
+                    bad = bad or (n, f"reads '{norm(n)}', the row's own contig {n.attr}")
+        if isinstance(n, ast.Call) and isinstance(n.func, ast.Attribute):
+            recv, args = n.func.value, n.args
+            if (is_name(recv, bait) and any(is_row_expr(a) for a in args)) or (is_row_expr(recv) and any(is_name(a, bait) for a in args)):
+                n_uses += 1
+                bad = bad or (n, f"decides with '{norm(n)[:50]}', which compares the bait with the row's own contig name and coordinates")
+    if bad:
+        node, what = bad
+        L.fail(
+            "R7", f"{find.short}:row-own-coordinates",
+            f"the lookup {what}: the bait is in scaffold coordinates and carries the scaffold's name, the row is in its contig's; the test agrees with the scaffold interval only for a scaffold that is one whole contig named after it — for any other single-contig scaffold a query that intersects it is answered with nothing",
+            find.loc(node), witness={"scaffold": "S = [ctg_7:1-5000]", "query": "S:1-5000", "expected": "the row", "returned": "None"},
+        )
+    else:
+        L.ok("R7", f"{find.short}:row-own-coordinates", f"rows consulted only through isinstance/length ({n_uses} attribute uses examined)", find.loc())
 
 
 def _result_sites(repo, L, find: Func):
@@ -223,7 +277,7 @@ def _r1(repo, L, ia, add):
                 if as_lin(item) != tot:
                     bad = bad or (r, f"index entry {j} is {item!r}, expected the cumulative end {tot}")
             except NotNumeric:
-                bad = bad or (r, f"index entry {j} is {item!r}")
+                raise AnalysisError(f"{add.short}: index entry {j} is {item!r}, not an integer form: the index has another layout than the list of cumulative row ends the lookup rules are written for") from None
         if not dict_store or not (isinstance(dict_store[0][2][2], Sym) and dict_store[0][2][2].name == "scffld"):
             stored_scaffold = False
     if bad:
